@@ -115,9 +115,39 @@ def run_pair(a, b, cfg, fams):
     return case
 
 
+def run_xspec(a, b, cfg1, cfg2):
+    """treespec-level operations on two treespecs made under DIFFERENT option sets (none_is_leaf / namespace / mode mismatch rules)"""
+    ctx = U.Ctx()
+    oa, ob = U.realise(a, ctx), U.realise(b, ctx)
+    with U.modes(cfg1['modes']):
+        sa = optree.tree_structure(oa, none_is_leaf=cfg1['nil'], namespace=cfg1['ns'])
+    with U.modes(cfg2['modes']):
+        sb = optree.tree_structure(ob, none_is_leaf=cfg2['nil'], namespace=cfg2['ns'])
+    case = {'op': 'xspec', 'a': a, 'b': b, 'cfg1': cfg1, 'cfg2': cfg2, 'sa': U.project_spec(sa), 'sb': U.project_spec(sb)}
+
+    def spec_or_err(fn):
+        r = g(fn)
+        if r['err'] == '':
+            r['v'] = U.project_spec(r['v'])
+        return r
+    case['eq'] = g(lambda: [sa == sb, sb == sa, sa != sb, hash(sa) == hash(sb)])
+    case['is_prefix'] = g(lambda: [sa.is_prefix(sb), sa.is_prefix(sb, strict=True), sb.is_suffix(sa), sa <= sb, sa < sb])
+    case['compose'] = spec_or_err(lambda: sa.compose(sb))
+    case['bcs'] = spec_or_err(lambda: sa.broadcast_to_common_suffix(sb))
+    case['transform_leaf'] = spec_or_err(lambda: sa.transform(None, lambda leaf: sb))
+    m, n = sa.num_leaves, sb.num_leaves
+    case['transpose'] = g(lambda: optree.tree_leaves(optree.tree_transpose(sa, sb, sa.unflatten([sb.unflatten(list(range(n)))] * m)),
+                                                     none_is_leaf=cfg1['nil'], namespace=cfg1['ns'] or cfg2['ns']) and 0)
+    return case
+
+
 def work(line):
     item = json.loads(line)
     out = []
+    if 'cfg2s' in item:
+        for cfg1, cfg2 in zip(item['cfgs'], item['cfg2s']):
+            out.append(json.dumps(run_xspec(item['a'], item['b'], cfg1, cfg2), separators=(',', ':')))
+        return out
     for cfg in item['cfgs']:
         out.append(json.dumps(run_pair(item['a'], item['b'], cfg, item['fams']), separators=(',', ':')))
     return out
